@@ -87,6 +87,9 @@ def finish(prop, obs, t0, level='proof', functions=None, bounds=None, trusted=No
     """Write evidence/<prop>.json, print the protocol lines, return the exit code.
     obs: list[Ob].  A 'violated' Ob must carry .model['replay'] = path of a reproduced replay file."""
     nviol = 0; ninc = 0; lines = []
+    if any(o.status == 'violated' for o in obs):
+        from . import reproduce
+        reproduce.reproduce(prop, obs)
     for o in obs:
         if o.status == 'violated':
             kf = finding_for(prop, o.key) if o.key else None
@@ -96,7 +99,8 @@ def finish(prop, obs, t0, level='proof', functions=None, bounds=None, trusted=No
             else:
                 nviol += 1
                 rp = (o.model or {}).get('replay', 'none')
-                lines.append(f"VIOLATION property={prop} replay={rp}")
+                l = f"VIOLATION property={prop} replay={rp}"
+                if l not in lines: lines.append(l)
         elif o.status == 'inconclusive':
             ninc += 1
     proved = sum(1 for o in obs if o.status == 'proved')
